@@ -459,6 +459,33 @@ func (c *runCtx) agree(kind string, x []byte, limit uint32, withFile bool) {
 					say("DetectFile", res(m, err))
 				}
 			}
+			// an *os.File that is not a regular file: the read end of a pipe whose writer delivers the bytes in two
+			// writes with a pause between them (a conforming reader that returns short reads)
+			if len(x) > 1 {
+				for _, cut := range []int{1, len(x) / 2} {
+					if m, err, ok := pipeDetect(x, cut, 4*time.Millisecond); ok && res(m, err) != want {
+						say(fmt.Sprintf("DetectReader over a pipe (*os.File) written in two parts, %d + %d bytes", cut, len(x)-cut), res(m, err))
+					}
+				}
+			}
 		}
 	}
+}
+
+// pipeDetect runs DetectReader on the read end of an OS pipe; the writer sends x[:cut], pauses, sends the rest, closes
+func pipeDetect(x []byte, cut int, pause time.Duration) (*mimetype.MIME, error, bool) {
+	pr, pw, err := os.Pipe()
+	if err != nil {
+		return nil, nil, false
+	}
+	go func() {
+		pw.Write(x[:cut])
+		time.Sleep(pause)
+		pw.Write(x[cut:])
+		pw.Close()
+	}()
+	m, derr := mimetype.DetectReader(pr)
+	io.Copy(io.Discard, pr)
+	pr.Close()
+	return m, derr, true
 }
